@@ -173,6 +173,14 @@ def _register2(op, g):
             co = compile(a["source"], a.get("filename", "prog.py"), "exec")
         except SyntaxError as e:
             return {"syntax_error": str(e)[:80]}
+        if a["source"].startswith("#craft:extarg"):
+            # a hand-assembled module body: LOAD_NAME behind one and two EXTENDED_ARG prefixes (operands 65794, 65541, 513), over a names table large enough to resolve them -- compilers emit this only for enormous modules
+            if PY < (3, 8):
+                return {"syntax_error": "crafted code needs code.replace()"}
+            om = dis.opmap
+            EA, LN, PT, LC, RV = om["EXTENDED_ARG"], om["LOAD_NAME"], om["POP_TOP"], om["LOAD_CONST"], om["RETURN_VALUE"]
+            code = bytes([EA, 1, EA, 1, LN, 2, PT, 0, EA, 1, EA, 0, LN, 5, PT, 0, EA, 2, LN, 1, PT, 0, LN, 3, PT, 0, LC, 0, RV, 0])
+            co = co.replace(co_code=code, co_names=tuple("n%d" % i for i in range(65800)), co_consts=(None,), co_stacksize=2)
         try:
             import importlib.util
             magic = importlib.util.MAGIC_NUMBER
